@@ -404,6 +404,7 @@ func (p *ProjectRunner) RestartProcess(name string) error {
 			log.Err(err).Msgf("failed to stop process %s", name)
 			return err
 		}
+		proc.waitForCompletion()
 		time.Sleep(proc.getBackoff())
 	}
 
